@@ -4,6 +4,7 @@ import (
 	"testing"
 
 	sdk "github.com/cosmos/cosmos-sdk/types"
+	dualstakingtypes "github.com/lavanet/lava/v5/x/dualstaking/types"
 	"pgregory.net/rapid"
 
 	"verifharness/internal/chain"
@@ -15,14 +16,18 @@ import (
 // credit without a matching debit) shows up as an increase of the sum over all balances.
 func TestC09(t *testing.T) {
 	c := ev.For("C09")
-	c.SetRule("rapid state machine over the full action alphabet on a generated world, block time progressing over months; oracle: the sum of all bank balances of the bond denom after every transaction and after every block is <= the value before; non-trivial = history crossed >=1 month boundary with >=1 accepted relay payment (so payouts, refills and bonus rewards ran); distinct = distinct histories")
+	c.SetRule("rapid state machine over the full action alphabet on a generated world, block time progressing over months; oracle: the sum of all bank balances of the bond denom after every transaction and after every block is <= the value before; one case in four is a directed scenario with drawn parameters (delegators bond almost all of their balance, relay payments, month boundary, monthly payout, reward claims by accounts whose liquid balance is below the reward); non-trivial = history crossed >=1 month boundary with >=1 accepted relay payment (so payouts, refills and bonus rewards ran), for the scenario: a delegator with (almost) no liquid balance was paid a claimed reward; distinct = distinct histories")
 	c.Assume("supply = sum over the mock bank's balance map (hook H7); accounts are funded during world setup only, before the baseline is taken",
 		"transactions run atomically (cache context + bank snapshot)")
 	rapid.Check(t, func(rt *rapid.T) {
+		if rapid.IntRange(0, 3).Draw(rt, "mode") == 0 {
+			propC09Scenario(rt, t)
+			return
+		}
 		w := chain.NewWorld(rt, t, chain.Cfg{RichSpec: true, RichPolicy: false, Geo: false, Contrib: true, Delegators: [2]int{1, 3}})
 		denom := w.C.Denom()
 		last := w.C.Supply(denom)
-		decreases := 0
+		decreases, poor := 0, 0
 		check := func(where string) {
 			c.Clause("supply-not-increased")
 			now := w.C.Supply(denom)
@@ -37,6 +42,27 @@ func TestC09(t *testing.T) {
 		}
 		w.C.BlockHook = func() { check("across a block boundary (EndBlock+BeginBlock) reaching height " + sdk.NewInt(int64(w.C.Height())).String()) }
 		acts := fullAlphabet(w, chain.RelayOpts{SessionPool: 0, PastEpochs: true, Qos: true, QosExcellence: true, Unresponsive: true})
+		// accounts that keep (almost) no liquid balance: a delegator bonds nearly everything it has,
+		// so later payouts/claims meet balances smaller than the amounts moved
+		acts["bondAlmostAll"] = func(rt *rapid.T) {
+			if len(w.Delegators) == 0 {
+				rt.Skip("no delegators")
+			}
+			d := w.Delegators[rapid.IntRange(0, len(w.Delegators)-1).Draw(rt, "delegator")]
+			p := w.Providers[rapid.IntRange(0, len(w.Providers)-1).Draw(rt, "provider")]
+			keep := int64(rapid.SampledFrom([]int{0, 1, 5, 1000}).Draw(rt, "keep"))
+			bal := w.C.Balance(d.Addr).Int64()
+			if bal <= keep+1 {
+				rt.Skip("already poor")
+			}
+			poor++
+			msg := &dualstakingtypes.MsgDelegate{Creator: d.Addr.String(), Validator: sdk.ValAddress(w.Validators[0].Addr).String(),
+				Provider: p.Addr(), Amount: sdk.NewCoin(denom, sdk.NewInt(bal-keep))}
+			_ = w.C.Tx("bondAlmostAll("+d.Addr.String()[len(d.Addr.String())-6:]+"->"+p.Name+", keep "+sdk.NewInt(keep).String()+")", msg.ValidateBasic, func() error {
+				_, err := w.C.TS.Servers.DualstakingServer.Delegate(w.C.TS.GoCtx, msg)
+				return err
+			})
+		}
 		acts[""] = func(rt *rapid.T) {
 			if w.C.Halt != "" {
 				rt.Skip("chain halted (reported by C37)")
@@ -56,6 +82,9 @@ func TestC09(t *testing.T) {
 		if decreases > 0 {
 			classes = append(classes, "supply-decreased(burn/slash)")
 		}
+		if poor > 0 {
+			classes = append(classes, "delegator-with-(almost)-no-liquid-balance")
+		}
 		if w.C.Halt != "" {
 			classes = append(classes, "halted")
 		}
@@ -64,4 +93,83 @@ func TestC09(t *testing.T) {
 			c.Sample(map[string]any{"history_tail": w.C.HistTail(20), "blocks": w.C.Blocks, "supply_end": last.String(), "supply_decreases": decreases})
 		}
 	})
+}
+
+// propC09Scenario aims the generator at the deep state the random alphabet rarely reaches: delegators
+// that bonded (almost) their whole balance, a provider that earned rewards over a month boundary, the
+// monthly payout, and then reward claims by accounts whose liquid balance is smaller than the reward.
+// All amounts, commissions, CU sums and the number of relays are drawn; supply is checked after every step.
+func propC09Scenario(rt *rapid.T, t *testing.T) {
+	c := ev.For("C09")
+	w := chain.NewWorld(rt, t, chain.Cfg{Specs: [2]int{1, 1}, Plans: [2]int{1, 1}, Providers: [2]int{2, 3}, Consumers: [2]int{1, 2}, Delegators: [2]int{1, 3}, Contrib: true})
+	denom := w.C.Denom()
+	last := w.C.Supply(denom)
+	check := func(where string) {
+		c.Clause("supply-not-increased")
+		now := w.C.Supply(denom)
+		if now.GT(last) {
+			rt.Fatalf("%s", ev.Violation("C09", "total supply of %s increased by %s (%s -> %s) %s\nhistory (tail):\n  %s",
+				denom, now.Sub(last), last, now, where, histString(w, 40)))
+		}
+		last = now
+	}
+	w.C.BlockHook = func() { check("across a block boundary reaching height " + sdk.NewInt(int64(w.C.Height())).String()) }
+	// 1. delegators bond almost everything
+	for i, d := range w.Delegators {
+		p := w.Providers[rapid.IntRange(0, len(w.Providers)-1).Draw(rt, "provider")]
+		keep := int64(rapid.SampledFrom([]int{0, 1, 5, 1000}).Draw(rt, "keep"))
+		bal := w.C.Balance(d.Addr).Int64()
+		msg := &dualstakingtypes.MsgDelegate{Creator: d.Addr.String(), Validator: sdk.ValAddress(w.Validators[0].Addr).String(),
+			Provider: p.Addr(), Amount: sdk.NewCoin(denom, sdk.NewInt(bal-keep))}
+		_ = w.C.Tx("bondAlmostAll(delegator"+sdk.NewInt(int64(i)).String()+"->"+p.Name+")", msg.ValidateBasic, func() error {
+			_, err := w.C.TS.Servers.DualstakingServer.Delegate(w.C.TS.GoCtx, msg)
+			return err
+		})
+		check("after bonding")
+	}
+	w.C.AdvanceEpoch()
+	// 2. relay payments over 1-3 months, monthly payouts, claims
+	months := rapid.IntRange(1, 3).Draw(rt, "months")
+	claims := 0
+	for m := 0; m < months && w.C.Halt == ""; m++ {
+		n := rapid.IntRange(1, 6).Draw(rt, "relays")
+		for i := 0; i < n; i++ {
+			w.ActRelayPayment(chain.RelayOpts{CuChoices: []uint64{10, 100, 500}, Qos: true})(rt)
+			check("after a relay payment")
+			if rapid.Bool().Draw(rt, "epochBetween") {
+				w.C.AdvanceEpoch()
+			}
+		}
+		w.ActAdvanceMonth(rt)
+		w.C.AdvanceEpochs(int(w.C.TS.EpochsToSave()) + 2)
+		for _, d := range w.Delegators {
+			msg := &dualstakingtypes.MsgClaimRewards{Creator: d.Addr.String()}
+			before := w.C.Balance(d.Addr)
+			_ = w.C.Tx("claimRewards(delegator)", msg.ValidateBasic, func() error {
+				_, err := w.C.TS.Servers.DualstakingServer.ClaimRewards(w.C.TS.GoCtx, msg)
+				return err
+			})
+			if w.C.Balance(d.Addr).GT(before) {
+				claims++
+			}
+			check("after a reward claim by a delegator with liquid balance " + before.String())
+		}
+		for _, p := range w.Providers {
+			msg := &dualstakingtypes.MsgClaimRewards{Creator: p.Vault()}
+			_ = w.C.Tx("claimRewards(vault of "+p.Name+")", msg.ValidateBasic, func() error {
+				_, err := w.C.TS.Servers.DualstakingServer.ClaimRewards(w.C.TS.GoCtx, msg)
+				return err
+			})
+			check("after a reward claim by a provider vault")
+		}
+	}
+	nt := claims > 0 && w.C.Halt == ""
+	classes := []string{"scenario:bond-payout-claim"}
+	if claims > 0 {
+		classes = append(classes, "scenario:poor-delegator-claimed-a-reward")
+	}
+	c.Case(nt, "scenario"+fingerprint(w), classes...)
+	if nt {
+		c.Sample(map[string]any{"scenario": "bond-payout-claim", "history_tail": w.C.HistTail(20), "claims_paid": claims})
+	}
 }
